@@ -1238,3 +1238,220 @@ Proof.
     + apply Hobs.
     + reflexivity.
 Qed.
+
+(* ------------------------------------------------------------------------------------ *)
+(** * The run-time budget of the summary fixpoint cannot run out below the gate *)
+
+Lemma summary_accounting_matches_source :
+  GenLimits.budget_charge_sites = budget_charge_sites_modelled /\
+  GenLimits.note_event_body = note_event_modelled /\
+  GenLimits.push_unique_bounded_body = push_unique_bounded_modelled /\
+  GenLimits.class_charge_guard = class_charge_guard_modelled.
+Proof. repeat split; reflexivity. Qed.
+
+(* the caps are consulted by the preflight gate and by the summary budget, nowhere else: there
+   is no other run-time allowance that could run out below the gate *)
+Lemma caps_users_match_source : GenLimits.caps_users = caps_users_modelled.
+Proof. reflexivity. Qed.
+
+Lemma skind_eqb_eq a b : skind_eqb a b = true <-> a = b.
+Proof. destruct a, b; cbn; split; intros H; try reflexivity; discriminate. Qed.
+
+Lemma sentry_eqb_eq a b : sentry_eqb a b = true <-> a = b.
+Proof.
+  unfold sentry_eqb. rewrite !andb_true_iff, skind_eqb_eq, !Nat.eqb_eq.
+  destruct a, b; cbn. split.
+  - intros [[-> ->] ->]. reflexivity.
+  - intros H. inversion H. repeat split.
+Qed.
+
+Lemma smem_in x g : smem x g = true <-> In x g.
+Proof.
+  unfold smem. rewrite existsb_exists. split.
+  - intros (y & Hy & E). apply sentry_eqb_eq in E. subst. exact Hy.
+  - intros H. exists x. split; [exact H|]. apply sentry_eqb_eq. reflexivity.
+Qed.
+
+Lemma smem_not_in x g : smem x g = false <-> ~ In x g.
+Proof.
+  rewrite <- smem_in. destruct (smem x g); split; intros H.
+  - discriminate.
+  - exfalso. apply H. reflexivity.
+  - intros E. discriminate.
+  - reflexivity.
+Qed.
+
+(* entries are numbered injectively below F * (F + 2L + 2) *)
+Definition swidth (F L : nat) : nat := F + 2 * L + 2.
+
+Definition scode (F L : nat) (x : sentry) : nat :=
+  e_owner x * swidth F L +
+  match e_kind x with
+  | KCallee => e_item x
+  | KRead => F + e_item x
+  | KWrite => F + L + e_item x
+  | KClass => F + 2 * L + (e_item x - 1)
+  end.
+
+Definition soff (F L : nat) (x : sentry) : nat :=
+  match e_kind x with
+  | KCallee => e_item x
+  | KRead => F + e_item x
+  | KWrite => F + L + e_item x
+  | KClass => F + 2 * L + (e_item x - 1)
+  end.
+
+Lemma soff_lt F L x : sentry_ok F L x -> (soff F L x < swidth F L)%nat.
+Proof. unfold sentry_ok, soff, swidth. destruct x as [k f i]; destruct k; cbn; lia. Qed.
+
+Lemma scode_lt F L x : sentry_ok F L x -> (scode F L x < F * swidth F L)%nat.
+Proof.
+  intros H. pose proof (soff_lt F L x H) as Ho. destruct H as [Hf _].
+  change (scode F L x) with (e_owner x * swidth F L + soff F L x)%nat. nia.
+Qed.
+
+Lemma scode_inj F L x y :
+  sentry_ok F L x -> sentry_ok F L y -> scode F L x = scode F L y -> x = y.
+Proof.
+  intros Hx Hy E.
+  change (scode F L x) with (e_owner x * swidth F L + soff F L x)%nat in E.
+  change (scode F L y) with (e_owner y * swidth F L + soff F L y)%nat in E.
+  pose proof (soff_lt F L x Hx) as Ox. pose proof (soff_lt F L y Hy) as Oy.
+  assert (Eo : e_owner x = e_owner y) by nia.
+  assert (Er : soff F L x = soff F L y) by nia.
+  unfold sentry_ok, soff in *. destruct x as [kx fx ix], y as [ky fy iy]. cbn in *.
+  subst fy. destruct kx, ky; cbn in *; f_equal; lia.
+Qed.
+
+Lemma nodup_map_inj (A B : Type) (f : A -> B) (l : list A) :
+  (forall x y, In x l -> In y l -> f x = f y -> x = y) -> NoDup l -> NoDup (map f l).
+Proof.
+  intros Hinj H. induction H as [|a l Hnin Hnd IH]; cbn; constructor.
+  - rewrite in_map_iff. intros (y & Ey & Hy). apply Hnin.
+    assert (y = a) by (apply Hinj; [right; exact Hy|left; reflexivity|exact Ey]). subst. exact Hy.
+  - apply IH. intros x y Hx Hy. apply Hinj; right; assumption.
+Qed.
+
+Lemma NoDup_app_snoc_aux (A : Type) (l : list A) (x : A) : NoDup l -> ~ In x l -> NoDup (l ++ [x]).
+Proof.
+  intros H Hx. induction H as [|a l Ha Hl IH]; cbn.
+  - constructor; [intros []|constructor].
+  - constructor.
+    + rewrite in_app_iff. intros [H|[H|[]]]; [apply Ha; exact H|]. subst. apply Hx. left. reflexivity.
+    + apply IH. intros H. apply Hx. right. exact H.
+Qed.
+
+Definition sinv (F L : nat) (g : list sentry) : Prop := NoDup g /\ Forall (sentry_ok F L) g.
+
+(* pigeonhole: a duplicate-free table of valid entries has at most F * (F + 2L + 2) rows *)
+Lemma sinv_length F L g : sinv F L g -> (List.length g <= F * swidth F L)%nat.
+Proof.
+  intros [Hnd Hok]. rewrite Forall_forall in Hok.
+  rewrite <- (map_length (scode F L) g), <- (seq_length (F * swidth F L) 0).
+  apply NoDup_incl_length.
+  - apply nodup_map_inj; [|exact Hnd]. intros x y Hx Hy. apply scode_inj; apply Hok; assumption.
+  - intros c Hc. apply in_map_iff in Hc. destruct Hc as (x & <- & Hx). apply in_seq.
+    pose proof (scode_lt F L x (Hok x Hx)). lia.
+Qed.
+
+Lemma sinv_snoc F L g x : sinv F L g -> sentry_ok F L x -> ~ In x g -> sinv F L (g ++ [x]).
+Proof.
+  intros [Hnd Hok] Hx Hnin. split.
+  - apply NoDup_app_snoc_aux; assumption.
+  - apply Forall_app. split; [exact Hok|constructor; [exact Hx|constructor]].
+Qed.
+
+Lemma note_event_pos b : 1 <= b -> note_event b = Some (b - 1).
+Proof. intros H. unfold note_event. destruct (Z.eqb_spec b 0); [lia|reflexivity]. Qed.
+
+(* one push: either nothing changes, or one row is added and exactly one event is charged;
+   with a budget covering the free rows the charge always succeeds *)
+Lemma push_unique_bounded_ok F L g x b :
+  sinv F L g -> sentry_ok F L x ->
+  Z.of_nat (F * swidth F L) - Z.of_nat (List.length g) <= b ->
+  exists g' b', push_unique_bounded g x b = Some (g', b') /\ sinv F L g' /\
+    Z.of_nat (F * swidth F L) - Z.of_nat (List.length g') <= b' /\
+    b - b' = Z.of_nat (List.length g') - Z.of_nat (List.length g).
+Proof.
+  intros Hinv Hx Hb. unfold push_unique_bounded. destruct (smem x g) eqn:Em.
+  - exists g, b. repeat split; try assumption; try apply Hinv. lia.
+  - apply smem_not_in in Em. pose proof (sinv_snoc F L g x Hinv Hx Em) as Hinv'.
+    pose proof (sinv_length F L _ Hinv') as Hlen. rewrite app_length in Hlen. cbn in Hlen.
+    rewrite note_event_pos by lia.
+    exists (g ++ [x]), (b - 1). rewrite app_length. cbn. repeat split; try apply Hinv'; lia.
+Qed.
+
+Lemma class_level_le2 g f : (class_level g f <= 2)%nat.
+Proof. unfold class_level. destruct (smem _ g); [lia|]. destruct (smem _ g); lia. Qed.
+
+Lemma sstep_ok F L g b o :
+  sinv F L g -> sop_ok F L o ->
+  Z.of_nat (F * swidth F L) - Z.of_nat (List.length g) <= b ->
+  exists g' b', sstep g b o = Some (g', b') /\ sinv F L g' /\
+    Z.of_nat (F * swidth F L) - Z.of_nat (List.length g') <= b' /\
+    b - b' = Z.of_nat (List.length g') - Z.of_nat (List.length g).
+Proof.
+  intros Hinv Ho Hb. destruct o as [k f i|f n]; cbn [sstep].
+  - apply push_unique_bounded_ok; try assumption. destruct k; cbn in Ho; try contradiction; exact Ho.
+  - destruct Ho as [Hf Hn]. destruct (Nat.ltb_spec (class_level g f) n) as [Hlt|Hge].
+    + apply push_unique_bounded_ok; try assumption. split; cbn; lia.
+    + exists g, b. repeat split; try assumption; try apply Hinv. lia.
+Qed.
+
+(* Any schedule of pushes and class steps, from any duplicate-free starting table (the direct
+   callees / captures the fixpoint starts from), with a budget of at least F*(F+2L+2) minus the
+   rows already present: the budget never runs out, and the events charged are exactly the rows
+   inserted. *)
+Lemma srun_ok F L ops : forall g b,
+  sinv F L g -> Forall (sop_ok F L) ops ->
+  Z.of_nat (F * swidth F L) - Z.of_nat (List.length g) <= b ->
+  exists g' b', srun ops g b = Some (g', b') /\ sinv F L g' /\
+    b - b' = Z.of_nat (List.length g') - Z.of_nat (List.length g) /\ 0 <= b'.
+Proof.
+  induction ops as [|o r IH]; intros g b Hinv Hops Hb; cbn [srun].
+  - exists g, b. repeat split; try apply Hinv; try lia.
+    pose proof (sinv_length F L g Hinv). lia.
+  - inversion Hops as [|? ? Ho Hr]; subst.
+    destruct (sstep_ok F L g b o Hinv Ho Hb) as (g1 & b1 & E1 & Hinv1 & Hb1 & Hd1).
+    rewrite E1. destruct (IH g1 b1 Hinv1 Hr Hb1) as (g2 & b2 & E2 & Hinv2 & Hd2 & Hpos).
+    exists g2, b2. repeat split; try assumption; try apply Hinv2. lia.
+Qed.
+
+Lemma swidth_summary_exact F L :
+  Z.of_nat (F * swidth F L) = summary_exact (Z.of_nat F) (Z.of_nat L).
+Proof. unfold swidth, summary_exact. lia. Qed.
+
+(* Below the gate the summary fixpoint never exhausts its budget (so every summary stays
+   available and the analyses run as usual): the preflight estimate bounds the events of every
+   schedule of the modelled charging discipline. *)
+Lemma summary_budget_never_exhausted_below_gate c k F L ops g0 :
+  caps_wf k -> counts_wf c -> max_summary_events k < u64_max ->
+  n_functions c = Z.of_nat F -> n_locals c = Z.of_nat L ->
+  first_exceeded_limit c k = None ->
+  sinv F L g0 -> Forall (sop_ok F L) ops ->
+  exists g b, srun ops g0 (max_summary_events k) = Some (g, b) /\ 0 <= b /\
+    max_summary_events k - b = Z.of_nat (List.length g) - Z.of_nat (List.length g0).
+Proof.
+  intros Hk Hc Hcap EF EL H Hinv Hops. rewrite no_limit_iff in H.
+  pose proof (H MLocals) as HtL. pose proof (H MSummary) as HtS.
+  destruct (derived_verdicts_exact c k Hk Hc HtL) as [HS _]. rewrite (HS Hcap) in HtS.
+  apply exceeds_false_iff in HtS. rewrite EF, EL, <- swidth_summary_exact in HtS.
+  destruct (srun_ok F L ops g0 (max_summary_events k) Hinv Hops) as (g & b & E & _ & Hd & Hpos); [lia|].
+  exists g, b. repeat split; assumption.
+Qed.
+
+(* the order matters: when every probe is charged, a budget that covers all possible rows is
+   not enough (three probes of the same entry, two possible rows, budget 2) *)
+Lemma probe_charging_exhausts :
+  let x := mkEntry KCallee 0 0 in
+  sinv 1 0 [] /\ Z.of_nat (1 * swidth 1 0) = 3 /\
+  (match push_probe_charged [] x 3 with
+   | Some (g1, b1) => match push_probe_charged g1 x b1 with
+                      | Some (g2, b2) => match push_probe_charged g2 x b2 with
+                                         | Some (g3, b3) => push_probe_charged g3 x b3
+                                         | None => None end
+                      | None => None end
+   | None => None end) = None /\
+  srun [OPush KCallee 0 0; OPush KCallee 0 0; OPush KCallee 0 0; OPush KCallee 0 0] [] 3
+  = Some ([x], 2).
+Proof. cbn. repeat split; try reflexivity; constructor. Qed.
